@@ -80,6 +80,15 @@ impl Sim {
                 return;
             }
         };
+        // Does the responder know any command of the request's sample? (If the requester is ahead
+        // of the peer by more than the sample window on its own branch and has no cache entry for
+        // it, it does not, and the responder can only start from the beginning.)
+        let sample_shared = match wire_mirror::decode_sync_type(&target[..len]) {
+            Some((wire_mirror::SyncType::Poll { request: wire_mirror::RequestMsg::SyncRequest { commands, .. } }, _)) => {
+                self.crashed[b] || commands.iter().any(|a| self.committed(b).contains(&a.id))
+            }
+            _ => true,
+        };
         let mut sidb = [0u8; 16];
         SimCsprng(Cell::new(sid)).fill_bytes(&mut sidb);
         let view = self.view(a, Some(t));
@@ -91,7 +100,9 @@ impl Sim {
             sid: u128::from_le_bytes(sidb),
             requester,
             responder: None,
-            clean: true,
+            // A session on a transaction that another commit has overtaken is not followed
+            // (see `do_add`: the shadow no longer tracks what such a transaction holds).
+            clean: !with_rep!(&self.reps[a], rep => rep.trxs[t].as_ref().is_some_and(|x| x.captured.is_some_and(|c| c != rep.counter))),
             closed: false,
             ended_seen_by_requester: false,
             polls: 0,
@@ -105,6 +116,7 @@ impl Sim {
             b_committed_at_open: if self.crashed[b] { 0 } else { self.committed(b).len() },
             a_view_at_open: view.clone(),
             delivered_missing: 0,
+            sample_shared,
         });
         let s = self.sess.len() - 1;
         self.net.push(Msg { sess: s, to_responder: true, bytes: target[..len].to_vec(), pristine: true });
@@ -401,7 +413,9 @@ impl Sim {
             self.stats.bump("sync_sessions_clean_with_missing");
             if ss.delivered_missing == 0 {
                 let (a, b, m) = (ss.a, ss.b, ss.missing_at_open);
-                self.violation("C16", "C16.no-progress", "session-without-progress", format!("session {s}: a{a} lacked {m} commands of b{b} but a complete undisturbed session delivered none"));
+                let shared = self.sess[s].sample_shared;
+                let sig = if shared { "session-without-progress" } else { "session-without-progress:requester-ahead-of-sample-window" };
+                self.violation("C16", "C16.no-progress", sig, format!("session {s}: a{a} lacked {m} commands of b{b} but a complete undisturbed session delivered none{}", if shared { "" } else { " (the responder knew no command of the request's sample)" }));
             }
         }
         let mid = self.sess[s].sent.iter().any(|v| v.len() == response_max());
